@@ -180,6 +180,47 @@ impl BoundSet {
     }
 }
 
+impl BoundSet {
+    /// The lowest version satisfying this set, if any: it is either the first
+    /// version at or after the lower bound, the release that bound belongs to,
+    /// or the first prerelease of the upper bound's version.
+    fn min_version(&self) -> Option<Version> {
+        use Predicate::*;
+
+        let release = |v: &Version| Version::from((v.major, v.minor, v.patch));
+        let mut candidates = Vec::new();
+
+        match self.lower.as_ref().clone().predicate() {
+            Including(v) => {
+                candidates.push(release(&v));
+                candidates.push(v);
+            }
+            Excluding(mut v) => {
+                candidates.push(release(&v));
+                if v.is_prerelease() {
+                    v.pre_release.push(Identifier::Numeric(0))
+                } else {
+                    v.patch += 1;
+                }
+                candidates.push(v);
+            }
+            Unbounded => {
+                candidates.push(Version::from((0, 0, 0)));
+                candidates.push(Version::from((0, 0, 0, 0)));
+            }
+        }
+
+        match self.upper.as_ref().clone().predicate() {
+            Including(v) | Excluding(v) if v.is_prerelease() => {
+                candidates.push(Version::from((v.major, v.minor, v.patch, 0)))
+            }
+            _ => {}
+        }
+
+        candidates.into_iter().filter(|v| self.satisfies(v)).min()
+    }
+}
+
 impl fmt::Display for BoundSet {
     fn fmt(&self, f: &mut fmt::Formatter<'_>) -> fmt::Result {
         use Bound::*;
@@ -505,38 +546,7 @@ impl Range {
     Return the lowest [Version] that can possibly match the given range.
     */
     pub fn min_version(&self) -> Option<Version> {
-        if let Some(min_bound) = self.0.iter().map(|range| &range.lower).min() {
-            let min_bound = min_bound.as_ref();
-            match min_bound {
-                Bound::Lower(pred) => match pred {
-                    Predicate::Including(v) => Some(v.clone()),
-                    Predicate::Excluding(v) => {
-                        let mut v = v.clone();
-                        if v.is_prerelease() {
-                            v.pre_release.push(Identifier::Numeric(0))
-                        } else {
-                            v.patch += 1;
-                        }
-                        Some(v)
-                    }
-                    Predicate::Unbounded => {
-                        let mut zero = Version::from((0, 0, 0));
-                        if self.satisfies(&zero) {
-                            return Some(zero);
-                        }
-
-                        zero.pre_release.push(Identifier::Numeric(0));
-                        if self.satisfies(&zero) {
-                            return Some(zero);
-                        }
-                        None
-                    }
-                },
-                Bound::Upper(_) => None,
-            }
-        } else {
-            None
-        }
+        self.0.iter().filter_map(BoundSet::min_version).min()
     }
 }
 
